@@ -780,9 +780,9 @@ func VarBuilder(env *Zlisp, name string,
 			_ = rd
 			//Q("we have RecordDefn rd = %#v", *rd)
 		}
-		valSexp = &SexpReflect{Val: reflect.ValueOf(v)}
+		valSexp = &SexpReflect{Val: reflect.ValueOf(v), Typ: rt}
 	default:
-		valSexp = &SexpReflect{Val: reflect.ValueOf(v)}
+		valSexp = &SexpReflect{Val: reflect.ValueOf(v), Typ: rt}
 	}
 
 	//Q("var decl: valSexp is '%v'", valSexp.SexpString(nil))
